@@ -2,6 +2,7 @@ package main
 
 import (
 	"fmt"
+	"strings"
 
 	"github.com/runreveal/pql/parser"
 	"verif/harness/astx"
@@ -99,7 +100,27 @@ func c11Main(r *run.Runner) {
 			})
 		})
 	}
-	r.Extra["bounds"] = map[string]any{"corpus_programs": len(corpus), "expr_internal_nodes": N, "prune_points": "every single node; pairs on small trees in thorough"}
+	// the same trees at every other place an expression may stand (the walk of each operator reaches its operands
+	// through its own code): one prune point at a time
+	contexts := []string{
+		"T | project x = %s , y = b", "T | project z = %s , w = %s", "T | summarize x = max ( %s ) by k = %s", "T | summarize %s by %s , c",
+		"T | summarize count ( ) , %s", "T | sort by %s asc , %s desc nulls first", "T | order by %s", "T | top 2 by %s desc", "T | take %s", "T | limit %s",
+		"let v = %s ; T | where v", "let v = 1 ; let w = %s ; T | extend %s", "L | join kind = inner ( R | where %s ) on %s", "L | join ( R | extend %s | project k , z = %s ) on k , %s",
+		"T | render barchart with ( title = %s )", "T | where f ( %s ) [ %s ] in ( %s , 1 )", "T | where not ( %s ) and - ( %s ) > 0", "T | as A | where %s | count",
+	}
+	for n := 1; n <= 2; n++ {
+		items := shapes.Items(n)
+		r.Sweep(fmt.Sprintf("expr-positions-%d", n), int64(len(items)), func(w *run.Worker, item int64) {
+			shapes.Do(items[item], func(sh gen.Expr) bool {
+				e := gen.ExprText(gen.WrapRoot(gen.Instantiate(sh, gen.FreshCols()), gen.Minimal))
+				for _, c := range contexts {
+					c11Source(w, strings.ReplaceAll(c, "%s", e), false)
+				}
+				return !w.Stopped()
+			})
+		})
+	}
+	r.Extra["bounds"] = map[string]any{"corpus_programs": len(corpus), "expr_internal_nodes": N, "expr_positions": len(contexts) + 2, "prune_points": "every single node; pairs on small trees in thorough"}
 	r.Sample("T | extend ( a + b ) , x = f ( c ) [ 1 ]")
 	r.Sample("T | join kind = inner ( R | where y > 1 ) on ( $left . x ) == $right . y")
 }
